@@ -228,6 +228,29 @@ def fam_object(ctx, rng, kind):
     ctx.state([kind, via_process, [s[0] for s in steps]])
 
 
+def fam_masks_edited_separately(ctx, rng):
+    """The two accept masks are separate public attributes: a user may take windows out of the curve statistics (window
+    mask) and leave their peaks in the resonance statistics, or the other way round; both masks must come back as written."""
+    kind = str(rng.choice(["traditional", "azimuthal"]))
+    obj = histories.build_traditional(rng)[0] if kind == "traditional" else histories.build_azimuthal(rng)
+    hs = obj.hvsrs if kind == "azimuthal" else [obj]
+    steps = []
+    for h in hs:
+        ok = np.flatnonzero(h.valid_peak_boolean_mask)
+        if ok.size >= 4:
+            pick = rng.choice(ok, size=int(rng.integers(1, max(2, ok.size // 3))), replace=False)
+            if rng.random() < 0.5:
+                h.valid_window_boolean_mask[pick] = False          # out of the curves, still in the resonance statistics
+                steps.append(["window-mask-only", pick.tolist()])
+            else:
+                h.valid_peak_boolean_mask[pick] = False            # out of the resonance statistics, still in the curves
+                steps.append(["peak-mask-only", pick.tolist()])
+    wrote = round_trip(ctx, obj, kind, steps, rng) if writable(obj) else False
+    ctx.describe(kind=kind + "+masks-edited-separately", n_curves=[int(h.n_curves) for h in hs], steps=steps)
+    if wrote:
+        ctx.nontrivial(["separate-masks", kind, [str(s2) for s2 in steps]])
+
+
 def fam_traditional(ctx, rng):
     fam_object(ctx, rng, "traditional")
 
@@ -274,5 +297,5 @@ def fam_diffuse(ctx, rng):
     fam_object(ctx, rng, "diffuse")
 
 
-FAMILIES = [("explicit-find-peaks-kwargs", fam_find_peaks_kwargs), ("traditional", fam_traditional), ("azimuthal", fam_azimuthal), ("diffuse-field", fam_diffuse),
+FAMILIES = [("masks-edited-separately", fam_masks_edited_separately), ("explicit-find-peaks-kwargs", fam_find_peaks_kwargs), ("traditional", fam_traditional), ("azimuthal", fam_azimuthal), ("diffuse-field", fam_diffuse),
             ("azimuthal-2", fam_azimuthal)]
